@@ -54,6 +54,20 @@ func waitBudget() time.Duration {
 	return 30 * time.Second
 }
 
+// ---- findings ---------------------------------------------------------------------
+
+const (
+	findFsetWhere   = "fence-fset-ignores-where"
+	findStringOrig  = "fence-string-old-position-origin"
+	findCircleBox   = "fence-circle-candidate-box"
+	findExpireEnter = "fence-expire-persist-emit-enter"
+)
+
+// active reports whether a finding is listed as "known": its triggering
+// shape is then kept out of the generated cases (and counted), and only the
+// deterministic probe reports on it.
+func active(id string) bool { return ev.KnownActive(id) }
+
 // ---- generator ------------------------------------------------------------------
 
 type genParams struct {
@@ -160,6 +174,7 @@ func mergeFields(old map[string]int, fs []Field) map[string]int {
 
 type generator struct {
 	rt     *rapid.T
+	excl   map[string]int // shapes left out because they trigger a known finding
 	cs     *Case
 	cur    []FenceSpec // definitions currently in force (re-definitions change them)
 	frames []frame
@@ -179,13 +194,10 @@ func (g *generator) valid(key int, lat, lon float64, old *gobj) bool {
 		if s == unsure {
 			return false
 		}
-		if old == nil || s == yes {
-			continue
+		if old == nil || !old.spatial || s == yes {
+			continue // no previous position: no path
 		}
-		so := no
-		if old.spatial {
-			so = g.frames[i].inside(old.lat, old.lon)
-		}
+		so := g.frames[i].inside(old.lat, old.lon)
 		if so == no && g.frames[i].crosses(old.lat, old.lon, lat, lon) == unsure {
 			return false
 		}
@@ -253,6 +265,12 @@ func (g *generator) drawPosition(key int, old *gobj) (lat, lon float64, ok bool)
 }
 
 func (g *generator) add(s Step) {
+	if o := g.objs[s.Key][s.ID]; (s.Op == "set" || s.Op == "setex") && o != nil && !o.spatial && active(findStringOrig) {
+		// known finding: a geometry SET over a string id draws a path from lat 0
+		// lon 0. Left out by construction: the string is deleted first.
+		g.excl[findStringOrig]++
+		g.add(Step{Op: "del", Key: s.Key, ID: s.ID, Phase: s.Phase})
+	}
 	g.cs.Steps = append(g.cs.Steps, s)
 	objs := g.objs[s.Key]
 	var prev map[string]int
@@ -279,6 +297,29 @@ func (g *generator) add(s Step) {
 	case "drop":
 		g.objs[s.Key] = map[string]*gobj{}
 	}
+}
+
+// spec is the definition of fence i currently in force.
+func (g *generator) spec(i int) FenceSpec {
+	if g.cur != nil {
+		return g.cur[i]
+	}
+	return g.cs.Fences[i]
+}
+
+// addFset appends an FSET unless it triggers a known finding: an FSET of an
+// object that fails the WHERE filter of a fence on its key.
+func (g *generator) addFset(s Step) {
+	if o := g.objs[s.Key][s.ID]; o != nil && o.spatial && active(findFsetWhere) {
+		nf := mergeFields(o.fields, s.Fields)
+		for i := range g.cs.Fences {
+			if f := g.spec(i); f.Key == s.Key && f.Where != nil && f.globOK(s.ID) && !f.whereOK(nf) {
+				g.excl[findFsetWhere]++
+				return
+			}
+		}
+	}
+	g.add(s)
 }
 
 // redefine appends a re-definition of one of the other fences under its name.
@@ -342,7 +383,8 @@ func (g *generator) nextQ() Field {
 
 func genCase(rt *rapid.T, detectIdx int, p genParams) Case {
 	cs := Case{}
-	g := &generator{rt: rt, cs: &cs, objs: [2]map[string]*gobj{{}, {}}}
+	g := &generator{rt: rt, cs: &cs, objs: [2]map[string]*gobj{{}, {}}, excl: map[string]int{}}
+	cs.excl = g.excl
 
 	// the fence under test
 	kind := pick(rt, "main-kind", areaKinds)
@@ -443,6 +485,15 @@ func genCase(rt *rapid.T, detectIdx int, p genParams) Case {
 		}
 		id := pick(rt, "id", ids)
 		old := g.objs[key][id]
+		if old != nil && pct(rt, "ttl") < 4 {
+			// EXPIRE / PERSIST change no position and no field: a fence has nothing to announce
+			if active(findExpireEnter) {
+				g.excl[findExpireEnter]++
+			} else {
+				g.add(Step{Op: pick(rt, "ttl-op", []string{"expire", "expire", "persist"}), Key: key, ID: id})
+			}
+			continue
+		}
 		if old != nil && old.spatial && pct(rt, "unchanged") < 9 {
 			// re-SET of the object exactly as it is: a stationary object must
 			// still be announced as inside / outside
@@ -492,7 +543,7 @@ func genCase(rt *rapid.T, detectIdx int, p genParams) Case {
 				s.Fields = append(s.Fields, Field{"f", intn(rt, "f", 0, 9)})
 			}
 			s.Fields = append(s.Fields, g.nextQ())
-			g.add(s)
+			g.addFset(s)
 		case op < 87:
 			g.add(Step{Op: "del", Key: key, ID: id})
 		case op < 91:
@@ -551,7 +602,7 @@ func (g *generator) closing() {
 		place("cross", 0)
 	}
 	if place("deep-in", 0.3) {
-		g.add(Step{Op: "fset", Key: 0, ID: "a1", Fields: []Field{g.nextQ()}, Phase: "closing"})
+		g.addFset(Step{Op: "fset", Key: 0, ID: "a1", Fields: []Field{g.nextQ()}, Phase: "closing"})
 	}
 	place("just-out", 1.3)
 	if g.objs[0]["a1"] != nil {
@@ -590,6 +641,10 @@ func stepArgs(s Step, key string) [][]string {
 	switch s.Op {
 	case "redef":
 		return nil // sent by runCase itself, between bursts
+	case "expire":
+		return [][]string{{"EXPIRE", key, s.ID, "1000"}}
+	case "persist":
+		return [][]string{{"PERSIST", key, s.ID}}
 	case "set", "setex":
 		a := fields([]string{"SET", key, s.ID})
 		if s.Op == "setex" {
@@ -727,6 +782,7 @@ func runCase(t failer, c *ev.Collector, cs Case) (info caseInfo) {
 
 	// --- run the script on server and model
 	st := newState()
+	overString := map[string]bool{} // id|fields of the SETs that replaced a string (for finding keys)
 	produced := make([]bool, len(runs))
 	addWrite := func(stepNo int, s Step, cmd, id string, old, cur *mobj) {
 		for i, r := range runs {
@@ -884,6 +940,7 @@ func runCase(t failer, c *ev.Collector, cs Case) (info caseInfo) {
 			}
 			if old != nil && !old.spatial && cur.spatial {
 				info.labels["set-geometry-over-string"] = true
+				overString[s.ID+"|"+canonFields(cur.fields)] = true
 			}
 			objs[s.ID] = cur
 			addWrite(n, s, "set", s.ID, old, cur)
@@ -1082,7 +1139,11 @@ func runCase(t failer, c *ev.Collector, cs Case) (info caseInfo) {
 				return true
 			}
 		}
-		fail("fence:"+obs+":"+res.Kind, fmt.Sprintf("fence #%d %s, observer %s: %s\nexpected: %s\nreceived: %s",
+		key := "fence:" + obs + ":" + res.Kind
+		if id := findingOf(r, res, overString); id != "" {
+			key = id
+		}
+		fail(key, fmt.Sprintf("fence #%d %s, observer %s: %s\nexpected: %s\nreceived: %s",
 			i, describeFence(r.spec), obs, res.What, listX(exp), listG(got)))
 		return false
 	}
@@ -1201,9 +1262,32 @@ func runGenerated(t *testing.T, c *ev.Collector, name string, perSubset int, p g
 	}
 }
 
+// findingOf recognises the divergences that belong to a listed finding, so
+// that they are reported under its id.
+func findingOf(r *fenceRun, res matchResult, overString map[string]bool) string {
+	g := res.Got
+	switch {
+	case g != nil && (g.Cmd == "expire" || g.Cmd == "persist"):
+		// a deadline change was announced as a fence event
+		return findExpireEnter
+	case g != nil && g.Cmd == "set" && overString[g.ID+"|"+g.Fields] && (g.Detect == "cross" || (res.Want != nil && res.Want.Detect == "cross")):
+		// the SET replaced a string: a cross (or its absence) can only come from a path drawn from lat 0 lon 0
+		return findStringOrig
+	case g != nil && g.Cmd == "fset" && g.Detect == "outside" && r.spec.Where != nil && (res.Kind == "extra" || res.Kind == "wrong-message" || res.Kind == "missing"):
+		// an FSET of an object that fails the WHERE filter was announced
+		return findFsetWhere
+	}
+	return ""
+}
+
 func record(c *ev.Collector, cs Case, info caseInfo) {
 	for l := range info.labels {
 		c.Label(l)
+	}
+	for id, n := range cs.excl {
+		for ; n > 0; n-- {
+			c.Excluded(id)
+		}
 	}
 	main := cs.Fences[0]
 	c.Label("detect:" + detectName(main.Detect))
@@ -1541,6 +1625,165 @@ func TestC05_LongLived(t *testing.T) {
 			c.NonTrivial(fmt.Sprintf("gen|%s|%s|%d|%d", main.Area.Kind, detectName(main.Detect), main.Limit, info.events))
 		}
 	})
+}
+
+// ---- deterministic probes of listed findings ------------------------------------------
+
+type probeFailer struct{ msg string }
+
+func (r *probeFailer) Fatalf(format string, args ...any) {
+	r.msg = fmt.Sprintf(format, args...)
+	panic(r)
+}
+func (r *probeFailer) Helper() {}
+
+// runProbe executes a fixed case; a divergence is reported under the finding
+// id: as a known finding when listed "known", as a violation otherwise.
+func runProbe(t *testing.T, c *ev.Collector, cs Case, id string) (held bool) {
+	pf := &probeFailer{}
+	scratch := ev.New("C05", "probe", "exploration") // never flushed
+	func() {
+		defer func() {
+			if r := recover(); r != nil && r != any(pf) {
+				panic(r)
+			}
+		}()
+		runCase(pf, scratch, cs)
+	}()
+	failedOnce = false
+	c.Case()
+	if pf.msg == "" {
+		return true
+	}
+	if active(id) {
+		c.Known(id, pf.msg)
+		return false
+	}
+	c.Violation(id, pf.msg, cs)
+	t.Errorf("probe %s: %s", id, pf.msg)
+	return false
+}
+
+func probeFence(kind string, f FenceSpec) (FenceSpec, frame) {
+	lat, lon := 12.5, 77.5
+	f.Obs = "all3"
+	switch kind {
+	case "bounds":
+		f.Cmd, f.Area = "within", Area{Kind: "bounds", Lat: lat, Lon: lon, HH: 0.05, HW: 0.05}
+	default:
+		f.Cmd, f.Area = "nearby", Area{Kind: "point", Lat: lat, Lon: lon, R: 5000}
+	}
+	return f, f.Area.frame()
+}
+
+// TestC05_Regress: fixed inputs of the findings this check has produced.
+func TestC05_Regress(t *testing.T) {
+	if ev.Shard() != 0 {
+		t.Skip("deterministic probes run on shard 0")
+	}
+	c := ev.New("C05", "regress", "exploration")
+	t.Cleanup(c.Flush)
+	c.Rule("fixed inputs, three observers each: (fence-fset-ignores-where) an object inside / outside the area that fails the fence's WHERE filter is FSET: nothing may be announced; (fence-string-old-position-origin) an id holding a string is SET to a point such that the line from lat 0 lon 0 runs through the area: only outside, no cross; (fence-expire-persist-emit-enter) EXPIRE and PERSIST of an object inside / outside: nothing may be announced")
+	at := func(fr frame, id string, u, v float64, fields ...Field) Step {
+		la, lo := fr.denorm(u, v)
+		return Step{Op: "set", Key: 0, ID: id, Kind: "point", Lat: round7(la), Lon: round7(lo), Fields: fields, Phase: "closing"}
+	}
+	// fence-fset-ignores-where
+	for _, kind := range []string{"bounds", "circle"} {
+		f, fr := probeFence(kind, FenceSpec{Where: &Where{Field: "f", Lo: 0.5, Hi: 1.5}})
+		cs := Case{Fences: []FenceSpec{f}, Steps: []Step{
+			at(fr, "a1", 0.1, 0.1, Field{"f", 2}), // inside the area, fails WHERE f 0.5 1.5: nothing
+			{Op: "fset", Key: 0, ID: "a1", Fields: []Field{{"q", 1}}, Phase: "closing"},
+			at(fr, "a2", 3, 3, Field{"f", 2}), // far outside, fails the filter
+			{Op: "fset", Key: 0, ID: "a2", Fields: []Field{{"q", 2}}, Phase: "closing"},
+			at(fr, "a3", 0.2, 0.1, Field{"f", 1}),                                       // passes: enter inside
+			{Op: "fset", Key: 0, ID: "a3", Fields: []Field{{"q", 3}}, Phase: "closing"}, // inside
+			{Op: "drop", Key: 0, Phase: "closing"},
+		}}
+		if !runProbe(t, c, cs, findFsetWhere) {
+			break
+		}
+	}
+	// fence-string-old-position-origin: the fence lies on the straight line from
+	// lat 0 lon 0 to the new position of an id that held a string
+	for _, kind := range []string{"bounds", "circle"} {
+		f, _ := probeFence(kind, FenceSpec{})
+		far := func(id string, q int) Step {
+			return Step{Op: "set", Key: 0, ID: id, Kind: "point", Lat: 25, Lon: 155, Fields: []Field{{"q", q}}, Phase: "closing"}
+		}
+		cs := Case{Fences: []FenceSpec{f}, Steps: []Step{
+			{Op: "setstr", Key: 0, ID: "a1", Phase: "closing"},
+			far("a1", 1), // no previous position: outside only, like a brand-new id
+			far("a2", 2), // brand-new id: outside
+			{Op: "drop", Key: 0, Phase: "closing"},
+		}}
+		if !runProbe(t, c, cs, findStringOrig) {
+			break
+		}
+	}
+	// fence-expire-persist-emit-enter: a deadline is put on / taken off an object inside the area
+	for _, kind := range []string{"bounds", "circle"} {
+		f, fr := probeFence(kind, FenceSpec{})
+		cs := Case{Fences: []FenceSpec{f}, Steps: []Step{
+			at(fr, "a1", 0.1, 0.1, Field{"q", 1}), // enter inside
+			{Op: "expire", Key: 0, ID: "a1", Phase: "closing"},
+			{Op: "persist", Key: 0, ID: "a1", Phase: "closing"},
+			at(fr, "a2", 3, 3, Field{"q", 2}), // outside
+			{Op: "expire", Key: 0, ID: "a2", Phase: "closing"},
+			{Op: "drop", Key: 0, Phase: "closing"},
+		}}
+		if !runProbe(t, c, cs, findExpireEnter) {
+			break
+		}
+	}
+}
+
+// TestC05_CircleEdge: discs over the antimeridian, over a pole and at high
+// latitudes, where the rectangle a hook is indexed under (the box of the
+// 64-gon drawn in degree space) is not the box of the disc: objects inside
+// the disc (by great-circle distance, 15% margin) on the far side must be
+// announced to the channel and the webhook exactly as to the live fence.
+// Every case is a probe of the finding fence-circle-candidate-box.
+func TestC05_CircleEdge(t *testing.T) {
+	if ev.Shard() != 0 {
+		t.Skip("deterministic enumeration runs on shard 0")
+	}
+	c := ev.New("C05", "circle-edge", "exploration")
+	t.Cleanup(c.Flush)
+	c.Rule("deterministic: NEARBY POINT / WITHIN CIRCLE fences with DETECT enter,inside,exit (found only through the hooks' rectangle index) centred at 11 places on the antimeridian, near the poles and at high latitude, radius 20 km and 50..150 km; 8 new objects each are SET inside the disc at 0.85 r in 8 bearings (longitudes normalised, so some lie across the antimeridian / beyond the pole) and then moved 3 r away: enter+inside, then exit, on all three observers. In/out by great-circle distance with a 10% margin. Non-trivial: every case; distinct by (centre, radius, command).")
+	type centre struct{ lat, lon, r float64 }
+	centres := []centre{{0, 179.9, 50000}, {0, -179.9, 50000}, {45, 179.97, 50000}, {60, -179.95, 20000}, {-30, 179.99, 150000},
+		{85, 10, 50000}, {89.5, 0, 100000}, {-88, 100, 150000}, {70, 30, 50000}, {80, -60, 100000}, {75, 179.8, 50000}}
+	n := 0
+	for _, ce := range centres {
+		for _, kind := range []string{"point", "circle"} {
+			cmd := "nearby"
+			if kind == "circle" {
+				cmd = "within"
+				if n%2 == 1 {
+					cmd = "intersects"
+				}
+			}
+			n++
+			f := FenceSpec{Cmd: cmd, Area: Area{Kind: kind, Lat: ce.lat, Lon: ce.lon, R: ce.r, Hav: true},
+				Detect: []string{"enter", "inside", "exit"}, Obs: "all3"}
+			cs := Case{Fences: []FenceSpec{f}}
+			q := 0
+			for b := 0; b < 8; b++ {
+				id := fmt.Sprintf("a%d", b+1)
+				la, lo := destination(ce.lat, ce.lon, 0.85*ce.r, float64(b)*45+7)
+				q++
+				cs.Steps = append(cs.Steps, Step{Op: "set", Key: 0, ID: id, Kind: "point", Lat: round7(la), Lon: round7(lo), Fields: []Field{{"q", q}}, Phase: "closing"})
+				la, lo = destination(ce.lat, ce.lon, 3*ce.r, float64(b)*45+7)
+				q++
+				cs.Steps = append(cs.Steps, Step{Op: "set", Key: 0, ID: id, Kind: "point", Lat: round7(la), Lon: round7(lo), Fields: []Field{{"q", q}}, Phase: "closing"})
+			}
+			c.NonTrivial(fmt.Sprintf("%v|%s", ce, cmd))
+			if !runProbe(t, c, cs, findCircleBox) {
+				return // one report per finding is enough
+			}
+		}
+	}
 }
 
 func TestReplay(t *testing.T) {
